@@ -1,5 +1,5 @@
 (* ProofsCalls.v — the premise of the C02 stability theorem is an invariant of the registry: after every history of
-   registrations (no field with both name and group; no As on an initializer), removals and modules, the registry
+   registrations (no As on an initializer), removals and modules, the registry
    meets [calls_wf]: every descriptor of a multi-output call is found under its output number, the descriptors of one
    call share the registration, an initializer's call has one descriptor. *)
 From Godi Require Import Base Model Check ProofsRegistry ProofsRuntime ProofsTerm ProofsWf ProofsOutputs ProofsStable.
@@ -58,22 +58,41 @@ Proof.
     generalize (combine (seq 0 (length (t0 :: t1 :: ts))) (t0 :: t1 :: ts)). intros l.
     induction l as [|[i t] l IH]; cbn [map step_descs]; [constructor|constructor; [split; reflexivity|exact IH]].
   - generalize (combine (seq 0 (length fs)) fs). intros l.
-    induction l as [|[i f] l IH]; cbn [map step_descs]; [constructor|constructor; [split; reflexivity|exact IH]].
+    induction l as [|[i f] l IH]; cbn [map step_descs]; [constructor|].
+    destruct (negb (f_name f =? 0) && negb (f_group f =? 0)); cbn [step_descs]; [exact IH|constructor; [split; reflexivity|exact IH]].
+Qed.
+
+(* a registration that went through had no rejected step *)
+Definition is_inl (s : desc + eclass) : Prop := match s with inl _ => True | inr _ => False end.
+Lemma run_steps_all_inl steps : forall c c', run_steps c steps = inl c' -> Forall is_inl steps.
+Proof.
+  induction steps as [|[d|e] steps IH]; intros c c'; cbn [run_steps]; [constructor| |discriminate].
+  destruct (register c d) as [c1|e]; [|discriminate]. intros Hr. constructor; [exact I|exact (IH _ _ Hr)].
 Qed.
 
 Lemma map_fst_combine_seq {A} (l : list A) a : map fst (combine (seq a (length l)) l) = seq a (length l).
 Proof. revert a; induction l as [|x l IH]; intros a; cbn [length seq combine map fst]; [reflexivity|]. rewrite IH. reflexivity. Qed.
 
-Lemma add_steps_outs r v : multi r = true -> map ds_out (step_descs (add_steps r v)) = seq 0 (arity r).
+Lemma result_steps_outs r v (l : list (nat * rfield)) :
+  Forall is_inl (map (fun '(i, f) => if negb (f_name f =? 0) && negb (f_group f =? 0) then inr EValidation
+                                     else inl (mkDesc (f_ty f) (name_key (f_name f)) (f_group f) r i v)) l) ->
+  map ds_out (step_descs (map (fun '(i, f) => if negb (f_name f =? 0) && negb (f_group f =? 0) then inr EValidation
+                                     else inl (mkDesc (f_ty f) (name_key (f_name f)) (f_group f) r i v)) l)) = map fst l.
+Proof.
+  induction l as [|[i f] l IH]; cbn [map step_descs fst]; intros Hall; [reflexivity|].
+  inversion Hall as [|s0 l0 Hs Hrest]; subst.
+  destruct (negb (f_name f =? 0) && negb (f_group f =? 0)); [destruct Hs|]. cbn [map step_descs fst ds_out].
+  rewrite (IH Hrest). reflexivity.
+Qed.
+
+Lemma add_steps_outs r v : multi r = true -> Forall is_inl (add_steps r v) -> map ds_out (step_descs (add_steps r v)) = seq 0 (arity r).
 Proof.
   unfold multi, arity, add_steps. destruct (r_form r) as [t|io ps rets er|io ps fs er]; [discriminate| |].
-  - destruct rets as [|t0 [|t1 ts]]; try discriminate. intros _.
+  - destruct rets as [|t0 [|t1 ts]]; try discriminate. intros _ _.
     rewrite <- (map_fst_combine_seq (t0 :: t1 :: ts) 0) at 2.
     induction (combine (seq 0 (length (t0 :: t1 :: ts))) (t0 :: t1 :: ts)) as [|[i t] l IH]; cbn [map step_descs fst ds_out]; [reflexivity|].
     rewrite IH. reflexivity.
-  - intros _. rewrite <- (map_fst_combine_seq fs 0) at 2.
-    induction (combine (seq 0 (length fs)) fs) as [|[i f] l IH]; cbn [map step_descs fst ds_out]; [reflexivity|].
-    rewrite IH. reflexivity.
+  - intros _ Hall. rewrite (result_steps_outs r v _ Hall). apply map_fst_combine_seq.
 Qed.
 
 Lemma add_steps_void r v io ps e : r_form r = FCtor io ps [] e -> r_as r = [] -> length (step_descs (add_steps r v)) = 1.
@@ -142,7 +161,7 @@ Proof.
       * destruct (H2 d x Hdc Hxc (conj E1 E2) Hm) as [Ho Hlt]. split; [|exact Hlt].
         rewrite output_desc_app, Ho. reflexivity.
       * rewrite Hdr in Hm |- *.
-        destruct (same_core_outs _ _ Hxs) as [Houts _]. rewrite (add_steps_outs r (S v) Hm) in Houts.
+        destruct (same_core_outs _ _ Hxs) as [Houts _]. rewrite (add_steps_outs r (S v) Hm (run_steps_all_inl _ _ _ Er)) in Houts.
         split.
         -- rewrite output_desc_app, (output_desc_other_call c d) by (intros y Hy; rewrite Hdv; apply Hold_call; exact Hy).
            apply (output_desc_by_number xs d 0 (arity r) Houts); [|exact Hxx].
@@ -191,7 +210,7 @@ Qed.
 
 (* ------------------------------------------------------------------ every history *)
 Definition JW (c : coll) (v : nat) : Prop := J c /\ W c v.
-Definition reg_calls_ok (r : reg) : Prop := reg_ok r = true /\ void_no_as r.
+Definition reg_calls_ok (r : reg) : Prop := void_no_as r.
 Definition call_calls_ok (o : op) : Prop := match o with OAdd r => reg_calls_ok r | _ => True end.
 Definition op_calls_ok (o : op) : Prop :=
   match o with
@@ -206,7 +225,7 @@ Proof. intros (H & _). exact H. Qed.
 Lemma direct_call_JW st o : JW (fst st) (snd st) -> call_calls_ok o -> JW (fst (fst (direct_call st o))) (snd (fst (direct_call st o))).
 Proof.
   intros [Hj Hw] Ho. destruct o; cbn [direct_call fst snd]; try (split; assumption).
-  - destruct Ho as [Hok Hv].
+  - pose proof (reg_ok_true r) as Hok. pose proof Ho as Hv.
     pose proof (add_service_J (fst st) (snd st) r Hj Hok) as H1. pose proof (add_service_W (fst st) (snd st) r Hw Hv) as H2.
     destruct (add_service (fst st) (snd st) r) as [[c' v'] e]. cbn [fst snd] in *. split; assumption.
   - split; [apply remove_service_J; exact Hj|apply remove_service_W; [apply J_nodup; exact Hj|exact Hw]].
